@@ -16,12 +16,19 @@
    chosen by VERIF_SEED), parsed by the real `DIP().add_string(text); parse()`, and the observation
    (returns / raises, `env.data()`) is compared with the ideal (verdict) and the machine (drift).
 
+3. Code -> spec: the repository's own DIP tests run under a tracer (verif/c16_tracer.py, a pytest plugin that
+   wraps DIP.parse; nothing in /repo is touched); every environment a parse RETURNS is projected to the
+   vocabulary of the spec (per node: type, final value, unit, declared options, condition, format, dimension
+   bounds, declared flag) and TLC judges it with the same ideal operators (spec/DipConstraintsTrace.tla).
+   A returned environment with a node that violates a declared constraint is a VIOLATION.
+
 Verdict: observed != ideal is a VIOLATION unless the code behaves exactly as the machine predicts and an
 open known finding's tags are among the record's deviation tags.  observed = ideal != machine is drift.
 """
 import json, os, sys, collections
 from . import common as C
 from . import c16_adapter as A
+from . import c16_tracer as T
 
 PID = "C16"
 ALL_DEVS = ["cond_skipped_str", "cond_skipped_bool", "bare_equality", "ne_exact", "int_literal_cast",
@@ -147,6 +154,61 @@ def _own_value(p, l):
     return [{"o": "value", "lit": l}]
 
 
+def testsuite_envs(C_, wd):
+    recs, summary = T.run_testsuite(C_, wd)
+    judged, why, rt = T.judge(C_, wd, recs)
+    return judged, why, rt, recs, summary
+
+
+def u_reason(n):
+    """Label (statistics only) of a node TLC left unjudged."""
+    if n["u"]:
+        return n["u"]
+    if any(c["opaque"] for c in n["conds"]):
+        return "condition: " + next(c["opaque"] for c in n["conds"] if c["opaque"])
+    if n["dims"] and n["val"].get("t") == "arr" and len(n["val"]["shape"]) > len(n["dims"]):
+        return "value has more dimensions than declared"
+    if n["val"].get("t") in ("opaque", "none"):
+        return "final value none or not representable, with constraints"
+    if any(o["t"] == "opaque" for o in n["opts"]):
+        return "option that is not a decimal literal"
+    return "inside an unspecified band (precision, prefix match, unit-less literal, foreign unit)"
+
+
+def judge_testsuite(V, wd):
+    """3. code -> spec.  -> coverage dict"""
+    judged, why, rt, recs, summary = testsuite_envs(C, wd)
+    reasons = collections.Counter()
+    nodes = collections.Counter()
+    kinds = collections.Counter()
+    for x in judged:
+        for n, v in zip(x["env"]["nodes"], x["nodes"]):
+            nodes[v] += 1
+            for a in ("opts", "conds", "fmts", "dims"):
+                if n[a]:
+                    kinds[a + ":" + v] += 1
+            if n["declared"]:
+                kinds["declared:" + v] += 1
+            if v == "U":
+                reasons[u_reason(n)] += 1
+        if x["verdict"] == "T":
+            V.ok()
+        elif x["verdict"] == "U":
+            V.unspecified()
+        else:
+            bad = [n for n, v in zip(x["env"]["nodes"], x["nodes"]) if v == "F"]
+            V.fail({"testsuite_env": x["env"]}, "every node satisfies its declared constraints",
+                   {"violating_nodes": bad},
+                   "an environment returned by a parse of the repository's tests contains a node that violates a declared "
+                   "constraint: " + json.dumps(bad)[:600], tags=x["tags"], failure="accepted_violating")
+    raised = collections.Counter(r["raised"] for r in recs if "raised" in r)
+    verd = collections.Counter(x["verdict"] for x in judged)
+    return {"pytest": summary, "parses": len(recs), "returned": len(judged), "raised": dict(raised),
+            "environments_validated": verd["T"], "environments_unspecified": verd["U"], "environments_violating": verd["F"],
+            "nodes": dict(nodes), "constraint_kinds_judged": dict(kinds), "unspecified_nodes_by_reason": dict(reasons),
+            "projection_gaps": dict(why), "tlc_states": rt.distinct}, rt
+
+
 def run(replay=None):
     V = C.Verdicts(PID, "model_checking")
     t = C.tier()
@@ -154,6 +216,15 @@ def run(replay=None):
     if replay:
         body = json.load(open(replay))
         rec = body["scenario"]
+        if "testsuite_env" in rec:
+            wd = C.workdir(PID)
+            bad = [x for x in testsuite_envs(C, wd)[0] if x["verdict"] == "F"]
+            C.cleanup(PID)
+            print(f"replay {replay}: {len(bad)} returned environment(s) of the test-suite violate a declared constraint")
+            if bad:
+                print(f"VIOLATION property={PID} replay={replay}")
+                return 1
+            return 0
         res = replay_record(rec)
         print(f"replay {replay}: {res['status']} observed={res['observed']} ideal={rec['ideal']} machine={rec['mach']}\n{res['text']}")
         if res["status"] == "violation":
@@ -214,6 +285,10 @@ def run(replay=None):
         samples += [{"text": o["text"], "ideal": r["ideal"], "machine": r["mach"], "observed": o["observed"],
                      "tags": r["tags"]} for r, o in list(zip(recs, res))[step // 2:: step][:3]]
         del recs, res
+    # 3. code -> spec: the repository's tests under the tracer, judged by TLC
+    ts, rt = judge_testsuite(V, wd)
+    states += rt.distinct
+    trans += rt.generated
     # non-vacuity of the machine: every named deviation that can decide a verdict does so somewhere
     deciding = [d for d in machine_devs() if d not in BAND_DEVS]
     missing = [d for d in deciding if devhits[d] == 0]
@@ -221,8 +296,9 @@ def run(replay=None):
         V.notes.append("deviations never decisive in this run: " + ", ".join(missing))
     V.cov.update({
         "states": states, "transitions": trans,
-        "traces_validated_against_impl": nrec,
-        "evaluations": nrec,
+        "traces_validated_against_impl": nrec + ts["environments_validated"],
+        "testsuite": ts,
+        "evaluations": nrec + ts["returned"],
         "distinct_nontrivial": nontrivial,
         "rule": "every program TLC reaches in spec/DipConstraints.tla (node family x definition|declaration x <= "
                 f"{1 if t == 'quick' else 2} modifications x <= 3 constraint lines x placement x bystander x direct|local import|source import, pools in the "
@@ -247,6 +323,9 @@ def run(replay=None):
         "!condition / !format lines that disagree; a condition or dimension bound violated only by a non-final assignment",
         "options on bool nodes, !format on non-string nodes, constraints on array nodes, units on unitless nodes, "
         "conditions whose literal has no unit on a node with unit, and empty strings are outside the explored language",
+        "test-suite direction: the projection of a returned environment (decimal text -> exact rational, observed floats "
+        "beyond 32 bits snapped to 9 significant digits, the condition text split into comparison atoms) is trusted; "
+        "parses that raise are counted, not judged",
         "the renderer's spelling choices (names, group nesting, quotes, comments, typed modifications, order of "
         "constraint kinds) do not matter to the property",
     ]
